@@ -390,7 +390,7 @@ def insert_scenarios_obligations(chk, prop):
     ix = SIdx(chk.prog)
     entry = _find_method(chk.prog, 'Features', 'insert_scenarios')
     obs = {}
-    shapes = [(0, 1, 0, 1), (1, 1, 1, 1), (0, 2, 0, 1), (1, 2, 1, 0)] if chk.tier != 'thorough' else \
+    shapes = [(0, 1, 0, 1), (1, 1, 1, 1), (0, 2, 0, 1), (1, 2, 1, 0), (1, 0, 0, 1), (1, 0, 1, 1)] if chk.tier != 'thorough' else \
         [(a, b, c, d) for a in (0, 1) for b in (0, 1, 2) for c in (0, 1) for d in (0, 1) if a + b > 0]
     bound = 'every path of Features::insert_scenarios; inserted (Serial, Concurrent) / already queued (Serial, Concurrent) entry counts %s; retry options symbolic; both iteration orders of every hash map' % (shapes,)
 
